@@ -126,16 +126,17 @@ package clusters
 //@   modifies c.currentSecureServingTLSConfig
 //@   loop 0: invariant [t] true
 
-//@ func (*ClusterInfo).syncEndpoints props C11
-//@   trusted "frame only (until the endpoint contracts land): touches the endpoint map, the load-balancer cursors and endpoint objects"
-//@   modifies smap(&c.Endpoints.data), c.loadbalancer, smap(&c.loadbalancer), fields("EndpointInfo", "status"), cancelled
-
 //@ func (*ClusterInfo).Sync props C11
 //@   requires [obj] cluster != nil
 //@   requires [latest] cluster == latestobj
 //@   requires [wf] fgWF
+//@   requires [eps] epsWF && epsInj && (c.skipSyncEndpoints || c.restConfig != nil)
 //@   modifies *
 //@   ensures [wf] fgWF
+//@   ensures [eps] epsWF && epsInj && c.skipSyncEndpoints == old(c.skipSyncEndpoints) && c.restConfig == old(c.restConfig)
+//@   ensures [endpoints_latest] result == nil && nameMatches && !old(c.skipSyncEndpoints) ==> forall k ref :: {smhas(EPC, k)} smhas(EPC, k) <==> typeis(k, "string") && serverListed(old(cluster.Spec.Servers), unbox(k, "string"))
+//@   ensures [disabled_latest] result == nil && nameMatches && !old(c.skipSyncEndpoints) ==> forall i int :: {old(cluster.Spec.Servers)[i]} 0 <= i && i < len(old(cluster.Spec.Servers)) ==> unbox(smget(EPC, box(old(cluster.Spec.Servers)[i].Endpoint)), "*EndpointInfo").status.Disabled == (exists j int :: {old(cluster.Spec.Servers)[j]} 0 <= j && j < len(old(cluster.Spec.Servers)) && old(cluster.Spec.Servers)[j].Endpoint == old(cluster.Spec.Servers)[i].Endpoint && old(cluster.Spec.Servers[j].Disabled) != nil && old(*cluster.Spec.Servers[j].Disabled))
+//@   ensures [removed_cancelled] forall k ref :: {smhas(EPC, k)} old(smhas(EPC, k)) && !smhas(EPC, k) && old(unbox(smget(EPC, k), "*EndpointInfo").cancel) != nil ==> cancelled[old(unbox(smget(EPC, k), "*EndpointInfo").cancel)]
 //@   ensures [gates_latest] result == nil && nameMatches ==> fgval[c.featuregate] == gatesOfAnn(old(cluster.Annotations[FGKEY]))
 //@   ensures [policies_latest] result == nil && nameMatches ==> typeis(c.currentDispatchPolicies.v, "[]proxyv1alpha1.DispatchPolicy") && unbox(c.currentDispatchPolicies.v, "[]proxyv1alpha1.DispatchPolicy") == old(cluster.Spec.DispatchPolicies)
 //@   ensures [logging_latest] result == nil && nameMatches ==> typeis(c.currentLoggingConfig.v, "proxyv1alpha1.LoggingConfig") && unbox(c.currentLoggingConfig.v, "proxyv1alpha1.LoggingConfig") == old(cluster.Spec.Logging)
@@ -151,6 +152,7 @@ package clusters
 //@   modifies fgval, fgalive
 //@   ensures [wf] result != nil && (result.featuregate in fgalive) && result.featuregate != DEFAULTFG && fgval[result.featuregate] == gdefault() && defaultWF
 //@   ensures [name] result.Cluster == toLower(clusterName)
+//@   ensures [eps_empty] result.Endpoints != nil && (forall k ref :: {smhas(&result.Endpoints.data, k)} !smhas(&result.Endpoints.data, k)) && result.restConfig == config && result.skipSyncEndpoints == (config == nil && healthCheck == nil)
 
 //@ func CreateClusterInfo props C11
 //@   requires [latest] cluster != nil && cluster == latestobj
@@ -163,3 +165,102 @@ package clusters
 //@ func buildClusterRESTConfig props C11
 //@   trusted "builds a fresh rest.Config from the object's client settings; reads only (client connection settings are outside C11)"
 //@   modifies nothing
+//@   ensures (result1 == nil ==> result != nil) && (result1 != nil ==> result == nil)
+
+// ---- endpoints (C03, C11, C15) ----
+//@ const EPC = &c.Endpoints.data
+//@ const epsWF = c.Endpoints != nil && (forall k ref :: {smhas(EPC, k)} smhas(EPC, k) ==> typeis(k, "string") && typeis(smget(EPC, k), "*EndpointInfo") && unbox(smget(EPC, k), "*EndpointInfo") != nil && unbox(smget(EPC, k), "*EndpointInfo").Endpoint == unbox(k, "string") && unbox(smget(EPC, k), "*EndpointInfo").status != nil && allocated(unbox(smget(EPC, k), "*EndpointInfo")) && allocated(unbox(smget(EPC, k), "*EndpointInfo").status))
+
+//@ const epsInj = (forall k1 ref, k2 ref :: {smhas(EPC, k1), smhas(EPC, k2)} smhas(EPC, k1) && smhas(EPC, k2) && k1 != k2 ==> unbox(smget(EPC, k1), "*EndpointInfo").status != unbox(smget(EPC, k2), "*EndpointInfo").status)
+
+//@ func (*ClusterInfo).syncEndpoints$1 props C03, C11, C15
+//@   iterator-body goset
+//@   requires [wf] epsWF
+//@   modifies smap(&c.Endpoints.data), cancelled
+//@   ensures [ret] result
+//@   ensures [wf] epsWF
+//@   ensures [each_removed] !smhas(EPC, elem)
+//@   ensures [only_removes] forall k ref :: {smhas(EPC, k)} smhas(EPC, k) ==> old(smhas(EPC, k)) && smget(EPC, k) == old(smget(EPC, k))
+//@   ensures [within_iterated] forall k ref :: {smhas(EPC, k)} old(smhas(EPC, k)) && !smhas(EPC, k) ==> (k in gsmem[iterated])
+//@   ensures [cancel_monotone] forall f ref :: {cancelled[f]} old(cancelled[f]) ==> cancelled[f]
+//@   ensures [cancel_removed] forall k ref :: {smhas(EPC, k)} old(smhas(EPC, k)) && !smhas(EPC, k) && old(unbox(smget(EPC, k), "*EndpointInfo").cancel) != nil ==> cancelled[old(unbox(smget(EPC, k), "*EndpointInfo").cancel)]
+
+//@ func startGatewayHealthCheck props C03, C11, C15
+//@   trusted "spawns the two probe goroutines of e; they stop when ctx is done"
+//@   modifies e.healthCheckCh, probectx[e]
+//@   ensures probectx[e] == ctx
+
+//@ func EnsureGatewayHealthCheck props C03, C11, C15
+//@   requires [e] e != nil && e.status != nil
+//@   modifies e.healthCheckCh, e.cancelHealthCheck, cancelled, probectx[e]
+//@   ensures [probe_ctx] e.cancelHealthCheck != nil && e.cancelHealthCheck != old(e.cancelHealthCheck) ==> parentOf(probectx[e]) == ctx
+//@   ensures [probe_stopped] e.healthCheckFun != nil && e.status.Disabled && old(e.cancelHealthCheck) != nil ==> cancelled[old(e.cancelHealthCheck)] && e.cancelHealthCheck == nil
+//@   ensures [cancel_monotone] forall f ref :: {cancelled[f]} old(cancelled[f]) ==> cancelled[f]
+//@   ensures [cancels_only_probe] forall f ref :: {cancelled[f]} cancelled[f] && !old(cancelled[f]) ==> f == old(e.cancelHealthCheck)
+
+//@ func (*EndpointInfo).ResetTransport props C03, C11, C15
+//@   trusted "builds the transports and clientset of this endpoint; touches only its own transport fields"
+//@   modifies e.ProxyTransport, e.clientset, e.cancelableTs
+
+//@ func unwrapUpgradeRequestRoundTripper props C03, C11, C15
+//@   trusted "pure unwrapping of round trippers"
+//@   modifies nothing
+
+//@ const EPK = box(endpoint)
+//@ const epEntry = unbox(smget(EPC, box(endpoint)), "*EndpointInfo")
+
+//@ func (*ClusterInfo).addOrUpdateEndpoint props C03, C11, C15
+//@   requires [wf] epsWF && c.restConfig != nil
+//@   requires [inj] epsInj
+//@   modifies smap(&c.Endpoints.data)[box(endpoint)], fields("endpointStatus", "Disabled"), fields("EndpointInfo", "healthCheckCh"), fields("EndpointInfo", "cancelHealthCheck"), cancelled, probectx
+//@   ensures [wf] epsWF
+//@   ensures [inj] epsInj
+//@   ensures [present] result == nil ==> smhas(EPC, EPK) && epEntry.status.Disabled == disabled
+//@   ensures [kept_object] old(smhas(EPC, EPK)) ==> result == nil && smget(EPC, EPK) == old(smget(EPC, EPK))
+//@   ensures [error_untouched] result != nil ==> !smhas(EPC, EPK)
+//@   ensures [only_own_status] forall s *endpointStatus :: {s.Disabled} !fresh(s) && !(old(smhas(EPC, EPK)) && s == old(epEntry.status)) ==> s.Disabled == old(s.Disabled)
+//@   ensures [cancel_monotone] forall f ref :: {cancelled[f]} old(cancelled[f]) ==> cancelled[f]
+//@   ensures [others_status] forall k ref :: {smhas(EPC, k)} k != EPK && old(smhas(EPC, k)) ==> unbox(smget(EPC, k), "*EndpointInfo").status.Disabled == old(unbox(smget(EPC, k), "*EndpointInfo").status.Disabled)
+//@   ensures [child_ctx] !old(smhas(EPC, EPK)) && result == nil ==> parentOf(epEntry.ctx) == c.ctx && cancelOf(epEntry.ctx) == epEntry.cancel && fresh(epEntry)
+//@   ensures [probe_under_endpoint] result == nil && epEntry.cancelHealthCheck != nil && epEntry.cancelHealthCheck != old(epEntry.cancelHealthCheck) ==> parentOf(probectx[epEntry]) == epEntry.ctx
+
+//@ const elemStr = unbox(elem, "string")
+//@ const elemEntry = unbox(smget(EPC, elem), "*EndpointInfo")
+
+//@ func (*ClusterInfo).syncEndpoints$2 props C03, C11, C15
+//@   iterator-body goset
+//@   requires [no_error] syncErr == nil
+//@   requires [wf] epsWF && c.restConfig != nil
+//@   requires [inj] epsInj
+//@   modifies captured("syncErr"), smap(&c.Endpoints.data), fields("endpointStatus", "Disabled"), fields("EndpointInfo", "healthCheckCh"), fields("EndpointInfo", "cancelHealthCheck"), cancelled, probectx
+//@   ensures [ret] result == (syncErr == nil)
+//@   ensures [wf] epsWF && c.restConfig != nil
+//@   ensures [inj] epsInj
+//@   ensures [each_present] typeis(elem, "string") && syncErr == nil ==> smhas(EPC, elem) && elemEntry.status.Disabled == (elem in gsmem[disabled])
+//@   ensures [only_adds] forall k ref :: {smhas(EPC, k)} old(smhas(EPC, k)) ==> smhas(EPC, k) && smget(EPC, k) == old(smget(EPC, k))
+//@   ensures [within_iterated] forall k ref :: {smhas(EPC, k)} !old(smhas(EPC, k)) && smhas(EPC, k) ==> (k in gsmem[iterated])
+//@   ensures [cancel_monotone] forall f ref :: {cancelled[f]} old(cancelled[f]) ==> cancelled[f]
+//@   ensures [sets_kept] gsmem == old(gsmem)
+
+//@ const notSkipped = !old(c.skipSyncEndpoints)
+
+//@ func (*ClusterInfo).syncEndpoints props C03, C11, C15
+//@   requires [wf] epsWF && (c.skipSyncEndpoints || c.restConfig != nil)
+//@   requires [inj] epsInj
+//@   modifies smap(&c.Endpoints.data), c.loadbalancer, smap(&c.loadbalancer), fields("endpointStatus", "Disabled"), fields("EndpointInfo", "healthCheckCh"), fields("EndpointInfo", "cancelHealthCheck"), cancelled, probectx, gsmem, gsalive
+//@   ensures [wf] epsWF
+//@   ensures [inj] epsInj
+//@   ensures [skip] !notSkipped ==> result == nil && cancelled == old(cancelled) && forall k ref :: {smhas(EPC, k)} smhas(EPC, k) == old(smhas(EPC, k)) && smget(EPC, k) == old(smget(EPC, k))
+//@   ensures [endpoints_latest] notSkipped && result == nil ==> forall k ref :: {smhas(EPC, k)} smhas(EPC, k) <==> typeis(k, "string") && serverListed(servers, unbox(k, "string"))
+//@   ensures [disabled_latest] notSkipped && result == nil ==> forall i int :: {servers[i]} 0 <= i && i < len(servers) ==> unbox(smget(EPC, box(servers[i].Endpoint)), "*EndpointInfo").status.Disabled == (exists j int :: {servers[j]} 0 <= j && j < len(servers) && servers[j].Endpoint == servers[i].Endpoint && servers[j].Disabled != nil && *servers[j].Disabled)
+//@   ensures [removed_cancelled] forall k ref :: {smhas(EPC, k)} old(smhas(EPC, k)) && !smhas(EPC, k) && old(unbox(smget(EPC, k), "*EndpointInfo").cancel) != nil ==> cancelled[old(unbox(smget(EPC, k), "*EndpointInfo").cancel)]
+//@   ensures [listed_kept] notSkipped ==> forall k ref :: {smhas(EPC, k)} old(smhas(EPC, k)) && serverListed(servers, unbox(k, "string")) ==> smhas(EPC, k) && smget(EPC, k) == old(smget(EPC, k))
+//@   loop 0: invariant [bounds] 0 <= idx && idx <= len(servers)
+//@   loop 0: invariant [wanted] forall x ref :: {x in gsmem[wantedEPs]} (x in gsmem[wantedEPs]) <==> typeis(x, "string") && serverListed(take(servers, idx), unbox(x, "string"))
+//@   loop 0: invariant [current] currentEPs != wantedEPs && forall x ref :: {x in gsmem[currentEPs]} (x in gsmem[currentEPs]) <==> smhas(EPC, x)
+//@   loop 1: invariant [bounds] 0 <= idx && idx <= len(servers)
+//@   loop 1: invariant [disabled] forall x ref :: {x in gsmem[disabled]} (x in gsmem[disabled]) <==> typeis(x, "string") && exists j int :: {servers[j]} 0 <= j && j < idx && servers[j].Endpoint == unbox(x, "string") && servers[j].Disabled != nil && *servers[j].Disabled
+//@   loop 1: invariant [wanted] disabled != wantedEPs && forall x ref :: {x in gsmem[wantedEPs]} (x in gsmem[wantedEPs]) <==> typeis(x, "string") && serverListed(servers, unbox(x, "string"))
+
+//@ const xEPC = &x.Endpoints.data
+//@ const xClusterWF = (x.featuregate in fgalive) && x.featuregate != DEFAULTFG && x.Endpoints != nil && (x.skipSyncEndpoints || x.restConfig != nil) && (forall k ref :: {smhas(xEPC, k)} smhas(xEPC, k) ==> typeis(k, "string") && typeis(smget(xEPC, k), "*clusters.EndpointInfo") && unbox(smget(xEPC, k), "*clusters.EndpointInfo") != nil && unbox(smget(xEPC, k), "*clusters.EndpointInfo").Endpoint == unbox(k, "string") && unbox(smget(xEPC, k), "*clusters.EndpointInfo").status != nil && allocated(unbox(smget(xEPC, k), "*clusters.EndpointInfo")) && allocated(unbox(smget(xEPC, k), "*clusters.EndpointInfo").status)) && (forall k1 ref, k2 ref :: {smhas(xEPC, k1), smhas(xEPC, k2)} smhas(xEPC, k1) && smhas(xEPC, k2) && k1 != k2 ==> unbox(smget(xEPC, k1), "*clusters.EndpointInfo").status != unbox(smget(xEPC, k2), "*clusters.EndpointInfo").status)
